@@ -489,6 +489,22 @@ def job_dtypes_estimator(ctx, ename):
     ctx.sample({'estimator': ename, 'dtypes': DTYPES})
 
 
+def job_helpers(ctx, k):
+    """Public per-sample helpers of the recursive filters that exist for one sample and for N samples: Complementary.am_estimation
+    (the only on-line route of that filter), with and without magnetometer."""
+    from ahrs import filters as F
+    atts = c04.attitudes('Gp', k)[::5]
+    g = np.array([0.0, 0.0, 1.0]); m = np.array([math.cos(1.0), 0.0, math.sin(1.0)])
+    Acc = np.array([rq.R(q).T @ g * 9.81 for _, q in atts]); Mag = np.array([rq.R(q).T @ m * 45.0 for _, q in atts])
+    labels = [lab for lab, _ in atts]
+    f = F.Complementary()
+    _cmp_batch(ctx, 'Complementary.am_estimation(N samples) row = am_estimation(one sample) [acc, mag]', labels,
+               lambda idx: np.asarray(f.am_estimation(Acc[idx].copy(), Mag[idx].copy())), lambda i: np.asarray(f.am_estimation(Acc[i].copy(), Mag[i].copy())), 'helper:am_estimation', wrap=True)
+    _cmp_batch(ctx, 'Complementary.am_estimation(N samples) row = am_estimation(one sample) [acc only]', labels,
+               lambda idx: np.asarray(f.am_estimation(Acc[idx].copy())), lambda i: np.asarray(f.am_estimation(Acc[i].copy())), 'helper:am_estimation', wrap=True)
+    ctx.sample({'helper': 'Complementary.am_estimation', 'rows': len(atts)})
+
+
 def run(ctx):
     k = A.seed_k(ctx.seed)
     ks = [k, (k + 5) % 8] if ctx.thorough else [k]
@@ -498,6 +514,7 @@ def run(ctx):
         jobs.append(('job_twins', (kk,)))
         jobs += [('job_from_dcm', (kk, mi)) for mi in range(len(METHODS))]
         jobs.append(('job_metrics', (kk,)))
+        jobs.append(('job_helpers', (kk,)))
         for e in rf.registry():
             if e.batch is not None:
                 jobs.append(('job_estimator', (e.name, kk)))
